@@ -43,7 +43,7 @@ SIX = ["true_positive_rate", "false_negative_rate", "false_positive_rate", "true
 FAIR = ["demographic_parity_difference", "demographic_parity_ratio", "equalized_odds_difference",
         "equalized_odds_ratio", "equal_opportunity_difference", "equal_opportunity_ratio"]
 VARIANTS = ["weighted", "replicated", "scaled", "omitted", "ones"]
-SCALES = ["1/2", "3", "7/4"]
+SCALES = ["1/2", "3", "7/4", "1/1099511627776", "1048576"]   # incl. 2^-40 (tiny totals) and 2^20
 KINDS = ["base", "frame-dict", "frame-callable", "fair"]
 
 
